@@ -67,6 +67,8 @@ func main() {
 	risky := fl.Bool("risky-names", false, "use one attribute name that generated code may collide with")
 	viewsDesign := fl.Bool("views-design", false, "a design of result types with views (C08)")
 	grpcDesign := fl.Bool("grpc-design", false, "a design with gRPC endpoints (C10)")
+	aliasDesign := fl.Bool("alias-design", false, "primitive alias types with validations, attributes with their own Enum (C02-C04)")
+	loose := fl.Bool("loose-defaults", false, "with -matrix-design: collection defaults given as []any / map[string]any")
 	matrixDesign := fl.Bool("matrix-design", false, "the systematic transport table: primitive x location x required/optional/default (C02-C04)")
 	meta := fl.Bool("meta", false, "decorate the design with openapi:* / struct:* metadata (post-pass, C09)")
 	metaBoth := fl.Bool("meta-both-summaries", false, "with -meta: openapi:summary and swagger:summary on the same expressions")
@@ -84,8 +86,15 @@ func main() {
 			fmt.Println(string(b))
 			return
 		}
+		if *aliasDesign {
+			d := design.GenerateAlias(lp.NewRng(*seed*1000003+uint64(*index)+29), *index)
+			b, _ := json.Marshal(d)
+			fmt.Println(string(b))
+			return
+		}
 		if *matrixDesign {
 			d := design.GenerateMatrix(lp.NewRng(*seed*1000003+uint64(*index)+23), *index)
+			d.LooseDefaults = *loose
 			b, _ := json.Marshal(d)
 			fmt.Println(string(b))
 			return
